@@ -32,7 +32,7 @@ META['explanation'] += ' ' + 'R5: protocol constants, and the LDAP StartTLS requ
 
 META['explanation'] += ' ' + 'R11: flag keyed optional parts (shared with C01.R12). R12: flag / timestamp tabulation incl. repeated members.'
 
-META['explanation'] += ' ' + 'R13 / R14: no function changes a module level container / class level state on the way from bytes to message. R15: reported lengths (shared with C03.R3). R16: the LDAP result code map evaluated against the enumeration.'
+META['explanation'] += ' ' + 'R13 / R14: no function changes a module level container / class level state on the way from bytes to message. R15: reported lengths (shared with C03.R3). R16: the LDAP result code map evaluated against the enumeration. R17: lower bounds on length fields admit the value composed for empty data (shared with C01.R22).'
 MODULES = {'cryptoparser.tls.mysql', 'cryptoparser.tls.rdp', 'cryptoparser.tls.openvpn', 'cryptoparser.tls.postgresql', 'cryptoparser.tls.ldap'}
 HERE = os.path.dirname(os.path.dirname(os.path.abspath(__file__)))
 
@@ -315,6 +315,9 @@ def ldap_schema(ctx, report):
     # included); rule shared with C03.R3, on the classes of these modules
     from .c03 import return_lengths
     ldap_result_code_map(ctx, report)
+    # the smallest message of a class is accepted by the parser of the class (rule shared with C01.R22)
+    from .c01 import guards_admit_smallest
+    guards_admit_smallest(ctx, report, RULE='C09.R17', only=set(MODULES), floor=3)
     report.rule('C09.R15', 'opportunistic-TLS messages: the reported length is the number of bytes the message occupied')
     return_lengths(ctx, report, RULE='C09.R15', only={k.name for k in ctx.model.concrete_parsables() if k.module.name in MODULES})
     report.floor('C09.R15', 8, 'message parse results')
